@@ -22,8 +22,10 @@ theorem gen_sql_allowed : ∀ s ∈ Gen.Sql.inventory, (classify s.2).isSome = t
 /-- No transaction of litestream on the source database is ever committed. -/
 theorem gen_lock_tx_never_commits : Gen.Sql.commitCalls = [] := by decide
 
-/-- The database path is only ever opened with `os.Open` (read-only); never created, written, truncated, renamed or removed. -/
-theorem gen_db_file_readonly : ∀ c ∈ Gen.Sql.dbPathCalls, c = "init: os.Open" := by decide
+/-- The database file, its `-wal` and its `-shm` are only ever opened with `os.Open` (read-only) by
+    litestream's own file calls; never created, written, truncated, renamed or removed. -/
+theorem gen_db_file_readonly : ∀ c ∈ Gen.Sql.dbPathCalls,
+    c = "init: os.Open" ∨ c = "detectFullCheckpoint: os.Open" ∨ c = "snapshotReader: os.Open" ∨ c = "sync: os.Open" := by decide
 
 /-- The lock insert only ever occurs inside the function that rolls its transactions back. -/
 theorem gen_lock_insert_sites : ∀ s ∈ Gen.Sql.inventory, classify s.2 = some .insertLockInTx → s.1 = "checkpointWithExecutor" := by decide
